@@ -353,74 +353,7 @@ def targets_of(m, n_orig):
     return list(range(1, ln + 1))
 
 
-def run(tier, seed, replay=None):
-    r = vf.Run(PROP, tier, seed, "proof")
-    r.assumptions = [
-        "Coq 8.16.1 kernel (coqc; vm_compute only in the non-vacuity Example); no axioms (Print Assumptions: closed)",
-        "the hash is a universally quantified parameter H : bytes -> N; binding conclusions are `... \\/ Collision H`; the graph "
-        "state, patch application and state root are parameters too (replay_single_field_tamper: `... \\/ RootCollision root`)",
-        "model = coq/Model/Chain.v; tie = generated multi-worldline histories through SchedulerCoordinator::super_tick, "
-        "harness/src/bin/c05.rs (every single-field alteration of every retained field at every position + structural "
-        "edits, through PlaybackCursor::seek_to over a tampering ProvenanceStore view, append_local_commit + "
-        "ProvenanceService::replay_worldline_state_at, validate_btr, add_checkpoint, import_suffix) and vm_compute "
-        "evaluation of the model on the same material with H = the table of the real entries' preimages (each row "
-        "checked against blake3) and any other preimage mapped outside the 32-byte range (blake3 assumed collision "
-        "free on the generated preimages)",
-        "apply / root of the model run are the tables measured on the implementation (C04 / C06 are about them)",
-    ]
-    r.cov["trusted_base"] = ["coqc 8.16.1 kernel + vm_compute", "python generator/renderer props/c05.py",
-                             "harness c05.rs (abstraction: reachable-graph dump, entry serialisation, tampering store view)",
-                             "blake3 crate (vfhash)"]
-    r.proof_phase(THEOREMS)
-    if replay:
-        d = json.load(open(replay))
-        cases = [d["replay"]["case"]] if "case" in d.get("replay", {}) else []
-    else:
-        cases = vf.load_corpus(PROP)
-        n = 10 if tier == "quick" else 60
-        cases += [gen_case(r.rng, tier, i) for i in range(n)]
-    cases = [f"id={i} {c}" + (" tier=thorough" if tier == "thorough" else "") for i, c in enumerate(cases)]
-    try:
-        bins = vf.cargo_build(["c05", "vfhash"])
-        r.phase("P3_build", ok=True)
-    except vf.Broken as e:
-        r.is_broken("harness-build", e)
-        return r.finish()
-    path = vf.write_cases("c05", cases)
-    rc, out = vf.run_bin(bins["c05"], path, timeout=2400)
-    if rc:
-        r.is_broken("harness-run", f"c05 exited {rc}: {out[-1500:]}")
-        return r.finish()
-    by_case = {}
-    for ln in out.splitlines():
-        m = re.match(r"[ESMVCR] id=(\d+) ", ln)
-        if m:
-            by_case.setdefault(int(m.group(1)), []).append(ln)
-    # ---------------------------------------------------------------- P5 oracle (implementation only)
-    n_alt = n_rej = n_same = 0
-    classes, infos = {}, {}
-    failing = 0
-    for i, c in enumerate(cases):
-        rl = [l for l in by_case.get(i, []) if l.startswith("R ")]
-        if not rl:
-            r.is_broken("harness-output", f"no result line for case {c}")
-            continue
-        m = dict(t.split("=", 1) for t in rl[0].split()[1:])
-        n_alt += int(m["alts"]); n_rej += int(m["rejected"]); n_same += int(m["accepted_same"])
-        for tok in ([] if m["classes"] == "-" else m["classes"].split(",")):
-            k, a, b, cc = tok.rsplit(":", 3)
-            cur = classes.get(k, [0, 0, 0]); classes[k] = [cur[0] + int(a), cur[1] + int(b), cur[2] + int(cc)]
-        for tok in ([] if m["info"] == "-" else m["info"].split(",")):
-            k, a = tok.rsplit(":", 1)
-            infos[k] = infos.get(k, 0) + int(a)
-        if m["oracle"] != "ok":
-            failing += 1
-            vlines = [l for l in by_case.get(i, []) if l.startswith("V ")][:6]
-            for sig in m["oracle"][5:].split(","):
-                r.violation(sig, f"implementation accepted altered history material: {sig}",
-                            {"case": c.split(" ", 1)[1].replace(" tier=thorough", ""), "oracle": sig, "examples": vlines})
-    r.phase("P5_oracle", failing=failing, alterations=n_alt)
-    # ---------------------------------------------------------------- P4 correspondence
+def correspondence(r, cases, by_case, tier):
     terms, meta = [], []
     model_budget = 160 if tier == "quick" else 500     # alterations per case evaluated on the model
     layout_checked = 0
@@ -537,6 +470,77 @@ def run(tier, seed, replay=None):
             if len(samples) < 3 and m["class"] in ("entry-duplication", "atom-payload-byte", "parent-commit"):
                 samples.append(f"{cases[ci]} :: {m['alt']} seek={m['seek']} svc={m['svc']}")
     r.phase("P4_correspondence", cases=len(terms), alterations_on_model=mi, differing=differing, layout_digests=layout_checked)
+    return layout_checked, validated, samples
+
+
+def run(tier, seed, replay=None):
+    r = vf.Run(PROP, tier, seed, "proof")
+    r.assumptions = [
+        "Coq 8.16.1 kernel (coqc; vm_compute only in the non-vacuity Example); no axioms (Print Assumptions: closed)",
+        "the hash is a universally quantified parameter H : bytes -> N; binding conclusions are `... \\/ Collision H`; the graph "
+        "state, patch application and state root are parameters too (replay_single_field_tamper: `... \\/ RootCollision root`)",
+        "model = coq/Model/Chain.v; tie = generated multi-worldline histories through SchedulerCoordinator::super_tick, "
+        "harness/src/bin/c05.rs (every single-field alteration of every retained field at every position + structural "
+        "edits, through PlaybackCursor::seek_to over a tampering ProvenanceStore view, append_local_commit + "
+        "ProvenanceService::replay_worldline_state_at, validate_btr, add_checkpoint, import_suffix) and vm_compute "
+        "evaluation of the model on the same material with H = the table of the real entries' preimages (each row "
+        "checked against blake3) and any other preimage mapped outside the 32-byte range (blake3 assumed collision "
+        "free on the generated preimages)",
+        "apply / root of the model run are the tables measured on the implementation (C04 / C06 are about them)",
+    ]
+    r.cov["trusted_base"] = ["coqc 8.16.1 kernel + vm_compute", "python generator/renderer props/c05.py",
+                             "harness c05.rs (abstraction: reachable-graph dump, entry serialisation, tampering store view)",
+                             "blake3 crate (vfhash)"]
+    r.proof_phase(THEOREMS)
+    if replay:
+        d = json.load(open(replay))
+        cases = [d["replay"]["case"]] if "case" in d.get("replay", {}) else []
+    else:
+        cases = vf.load_corpus(PROP)
+        n = 10 if tier == "quick" else 60
+        cases += [gen_case(r.rng, tier, i) for i in range(n)]
+    cases = [f"id={i} {c}" + (" tier=thorough" if tier == "thorough" else "") for i, c in enumerate(cases)]
+    try:
+        bins = vf.cargo_build(["c05", "vfhash"])
+        r.phase("P3_build", ok=True)
+    except vf.Broken as e:
+        r.is_broken("harness-build", e)
+        return r.finish()
+    path = vf.write_cases("c05", cases)
+    rc, out = vf.run_bin(bins["c05"], path, timeout=2400)
+    if rc:
+        r.is_broken("harness-run", f"c05 exited {rc}: {out[-1500:]}")
+        return r.finish()
+    by_case = {}
+    for ln in out.splitlines():
+        m = re.match(r"[ESMVCR] id=(\d+) ", ln)
+        if m:
+            by_case.setdefault(int(m.group(1)), []).append(ln)
+    # ---------------------------------------------------------------- P5 oracle (implementation only)
+    n_alt = n_rej = n_same = 0
+    classes, infos = {}, {}
+    failing = 0
+    for i, c in enumerate(cases):
+        rl = [l for l in by_case.get(i, []) if l.startswith("R ")]
+        if not rl:
+            r.is_broken("harness-output", f"no result line for case {c}")
+            continue
+        m = dict(t.split("=", 1) for t in rl[0].split()[1:])
+        n_alt += int(m["alts"]); n_rej += int(m["rejected"]); n_same += int(m["accepted_same"])
+        for tok in ([] if m["classes"] == "-" else m["classes"].split(",")):
+            k, a, b, cc = tok.rsplit(":", 3)
+            cur = classes.get(k, [0, 0, 0]); classes[k] = [cur[0] + int(a), cur[1] + int(b), cur[2] + int(cc)]
+        for tok in ([] if m["info"] == "-" else m["info"].split(",")):
+            k, a = tok.rsplit(":", 1)
+            infos[k] = infos.get(k, 0) + int(a)
+        if m["oracle"] != "ok":
+            failing += 1
+            vlines = [l for l in by_case.get(i, []) if l.startswith("V ")][:6]
+            for sig in m["oracle"][5:].split(","):
+                r.violation(sig, f"implementation accepted altered history material: {sig}",
+                            {"case": c.split(" ", 1)[1].replace(" tier=thorough", ""), "oracle": sig, "examples": vlines})
+    r.phase("P5_oracle", failing=failing, alterations=n_alt)
+    layout_checked, validated, samples = correspondence(r, cases, by_case, tier)
     r.cov["evaluations"] = n_alt
     r.cov["distinct_nontrivial"] = n_alt
     r.cov["rule"] = ("one evaluation = one altered history (one retained field of one entry changed, or one structural edit) fed to "
